@@ -465,3 +465,54 @@ def classify_merge(m, pairs):
     kin_par = any(img(k) == img(p) for k in kins for p in pars if k != p)
     kin_kin = any(img(a) == img(b) for i, a in enumerate(kins) for b in kins[i + 1:])
     return kin_par, kin_kin
+
+
+# ---------------------------------------------------------------- independence (object identity)
+def independence(cur, nxt, pairs, pass_as, rng):
+    """The renamed model must be a value independent of the one it was made from: no mutable
+    container is shared, and writing a parameter default (by symbol, name or index) on either
+    model leaves the other — and a fresh re-rename of the original — unchanged.  Rename.v is
+    purely functional, so this can only be checked here.  The empty map is excluded (the method
+    returns self by design).  Every write is undone (zoo models are shared in-process).
+    -> list of (signature, what)"""
+    if not dict(pairs) or nxt is cur:
+        return []
+    fails = []
+    for attr in ("parameter_defaults", "amplitudes", "kinematic_variables", "components"):
+        if getattr(nxt, attr) is getattr(cur, attr):
+            fails.append((f"{attr}_aliased", f"renamed.{attr} is original.{attr} (same object) after {pairs}"))
+    for writer, reader, wname in ((nxt, cur, "renamed"), (cur, nxt, "original")):
+        pd = writer.parameter_defaults
+        keys = list(pd)
+        if not keys:
+            continue
+        i = rng.randrange(len(keys))
+        key = keys[i]
+        how = rng.choice(["symbol", "name", "index"])
+        if how == "name":  # two parameters may print alike (same name, other assumptions): the first one is hit
+            key = next(k for k in keys if str(k) == str(key))
+            i = keys.index(key)
+        handle = {"symbol": key, "name": str(key), "index": i}[how]
+        before_reader = [(k, v) for k, v in reader.parameter_defaults.items()]
+        before_writer = [(k, v) for k, v in pd.items()]
+        old = pd[key]
+        try:
+            try:
+                pd[handle] = old + 1.25
+            except Exception as ex:  # noqa: BLE001
+                fails.append(("parameter_setitem_failed", f"{type(ex).__name__} setting by {how}"))
+                continue
+            after_reader = [(k, v) for k, v in reader.parameter_defaults.items()]
+            if after_reader != before_reader:
+                fails.append(("parameter_write_leaks",
+                              f"setting {wname}.parameter_defaults[{how}] changed the other model's defaults "
+                              f"(map {pairs})"))
+            if writer is nxt:
+                again = apply_impl(cur, pairs, pass_as)
+                if [(k, v) for k, v in again.parameter_defaults.items()] != before_writer:
+                    fails.append(("parameter_write_leaks",
+                                  f"a re-rename of the original sees the value written into the renamed model "
+                                  f"(map {pairs})"))
+        finally:
+            pd[key] = old
+    return fails
